@@ -97,6 +97,12 @@ func c09Qrez(veloc, tempsum float64) float64 {
 	return math.Max(math.Pow((0.081476+math.Exp(-veloc*(tempsum+Tsumbase))), 1.8), 0.022)
 }
 
+// c09RootPow is the power term of root() before the floor 0.022 (oracle input of DevModel.root_qrez)
+func c09RootPow(veloc, tempsum float64) float64 {
+	Tsumbase := math.Log(math.Pow(0.35, 1/1.8)-0.081476) / math.Log(math.Exp(-veloc))
+	return math.Pow((0.081476 + math.Exp(-veloc*(tempsum+Tsumbase))), 1.8)
+}
+
 func isZRK(c hermes.CropType) bool { return c == hermes.ZR || c == hermes.K }
 
 // c09Maxup mirrors crop.go:663-681 (oracle value)
@@ -430,6 +436,7 @@ func c09Line(work, line string, yml bool, tag string, lineNo int, r *rng, every,
 				wprog = 1
 			}
 			devprog := math.Max(nprog, wprog)
+			_, _, devDLP, _, _, _, _ := hermes.CalculateDayLenght(pre.TAG.Num, pre.LAT)
 			minin := 0.004
 			if pre.NGEFKT == 1 {
 				minin = 0.005
@@ -634,6 +641,11 @@ func c09Line(work, line string, yml bool, tag string, lineNo int, r *rng, every,
 				"doy": pre.TAG.Index + 1, "temp": hx(temp), "bas": hxs(pre.BAS[:]), "wg00": hx(pre.WG[0][0]), "w0": hx(pre.W[0]), "wmin0": hx(pre.WMIN[0]),
 				"dt": hx(dt), "fv": hx(shadow.FV), "fp": hx(shadow.FP), "devprog": hx(devprog), "phyllo": hx(pre.PHYLLO),
 				"o_k": g.INTWICK.Index, "o_sum": hxs(g.SUM[:]), "o_dev": g.DEV[:], "o_phyllo": hx(g.PHYLLO),
+				// development-rate block (DevModel): inputs of vern / FP / devprog for the stage reached, root() power oracle
+				"d_vt0": hx(pre.VERNTAGE), "d_vschwell": hx(pre.VSCHWELL[k1]), "d_dlp": hx(devDLP), "d_dayl": hx(pre.DAYL[k1]), "d_dlbas": hx(pre.DLBAS[k1]),
+				"d_nons": ct == hermes.ZR || ct == hermes.SM, "d_trrel": hx(pre.TRREL), "d_dry": hx(pre.DRYSWELL[k1]), "d_lured": hx(pre.LURED),
+				"d_o_vt": hx(g.VERNTAGE), "d_o_fv": hx(shadow.FV), "d_o_fp": hx(shadow.FP),
+				"d_p": hx(c09RootPow(pre.VELOC, g.PHYLLO+g.SUM[0])), "d_o_pot": hx(g.POTROOTINGDEPTH),
 				// reduk
 				"gehob": hx(pre.GEHOB), "gehmin": hx(g.GEHMIN), "ngefkt1": pre.NGEFKT == 1, "earg": hx(eArg), "e": hx(eVal), "reduk0": hx(pre.REDUK), "o_reduk": hx(g.REDUK),
 				// organs
